@@ -238,9 +238,8 @@ def computeImageInfo (cr : Creation) (p : Props) (amFormat : Option Nat) : Nat Ã
       flags := clearBits flags FAST_PATH_NARROW_FORMAT
   | k =>
     code := PIXMAN_unknown
-    -- RADIAL: `if (image->radial.a >= 0) break; if (!(flags & FAST_PATH_AFFINE_TRANSFORM)) break;` (a7be4c7),
-    -- else fall through to CONICAL/LINEAR
-    if !(k == .radial && (cr.radialA â‰¥ 0 || !hasBits flags FAST_PATH_AFFINE_TRANSFORM)) then
+    -- RADIAL: `code = PIXMAN_unknown; break;` (6d3452b: never reported opaque); CONICAL, LINEAR: the stop test
+    if !(k == .radial) then
       if p.repeat_ != PIXMAN_REPEAT_NONE then
         flags := flags ||| FAST_PATH_IS_OPAQUE
         if cr.stops.any (fun s => s.c.a != 0xffff) then
